@@ -12,22 +12,22 @@ fn write_atom_encoding_prefix_with_size<W: io::Write>(
 ) -> Result<()> {
     if size == 0 {
         f.write_all(&[0x80])
-            .map_err(|_| EvalErr::SerializationError)
+            .map_err(EvalErr::from)
     } else if size == 1 && atom_0 < 0x80 {
         Ok(())
     } else if size < 0x40 {
         f.write_all(&[0x80 | (size as u8)])
-            .map_err(|_| EvalErr::SerializationError)
+            .map_err(EvalErr::from)
     } else if size < 0x2000 {
         f.write_all(&[0xc0 | (size >> 8) as u8, size as u8])
-            .map_err(|_| EvalErr::SerializationError)
+            .map_err(EvalErr::from)
     } else if size < 0x10_0000 {
         f.write_all(&[
             (0xe0 | (size >> 16)) as u8,
             ((size >> 8) & 0xff) as u8,
             ((size) & 0xff) as u8,
         ])
-        .map_err(|_| EvalErr::SerializationError)
+        .map_err(EvalErr::from)
     } else if size < 0x800_0000 {
         f.write_all(&[
             (0xf0 | (size >> 24)) as u8,
@@ -35,7 +35,7 @@ fn write_atom_encoding_prefix_with_size<W: io::Write>(
             ((size >> 8) & 0xff) as u8,
             ((size) & 0xff) as u8,
         ])
-        .map_err(|_| EvalErr::SerializationError)
+        .map_err(EvalErr::from)
     } else if size < 0x4_0000_0000 {
         f.write_all(&[
             (0xf8 | (size >> 32)) as u8,
@@ -44,7 +44,7 @@ fn write_atom_encoding_prefix_with_size<W: io::Write>(
             ((size >> 8) & 0xff) as u8,
             ((size) & 0xff) as u8,
         ])
-        .map_err(|_| EvalErr::SerializationError)
+        .map_err(EvalErr::from)
     } else {
         Err(EvalErr::SerializationError)?
     }
